@@ -10,6 +10,11 @@ COMMON_TB = [
 
 HOOK_COMMITS = ["4d6c2a5", "be1b687", "e88a172", "8d87278"]
 
+# family WCAP (conn binary): a transport that refuses writes by a schedule, a localization adapter that suspends; compared with M3
+WCAP_FT = {"case_type": "conn_case", "shard": 12,
+           "imports": ["Lib.Bytes", "Codec.Desc", "Conn.Types", "Conn.Prog", "Conn.Sem1", "Conn.Sem3", "Run.CaseConn", "Run.CaseConn3"],
+           "checkers": {"WCAP": "check_conn3"}}
+
 PROPS = {
     "C09": {
         "props_file": "Props/C09.v",
@@ -157,11 +162,12 @@ PROPS = {
     },
     "C06": {
         "props_file": "Props/C06.v",
-        "run_files": ["Run/CaseConn.v"],
+        "run_files": ["Run/CaseConn.v", "Run/CaseConn3.v"],
         "imports": ["Lib.Bytes", "Codec.Desc", "Conn.Types", "Conn.Prog", "Conn.Sem1", "Run.CaseConn"],
         "case_type": "conn_case",
+        "family_types": {"WCAP": WCAP_FT},
         "checkers": {"BASE": "check_c06", "C06": "check_c06", "C01": "check_c06", "C02": "check_c06", "C07": "check_c06", "C10": "check_c06", "C03": "check_c06", "WCAN": "check_c06"},
-        "harness": [{"bin": "conn", "env": {"VERIF_FAMILIES": "BASE,C06,C01,C02,C07,C10,C03,WCAN"}}],
+        "harness": [{"bin": "conn", "env": {"VERIF_FAMILIES": "BASE,C06,C01,C02,C07,C10,C03,WCAN,WCAP"}}],
         "shard": 40,
         "quick_scale": 1, "thorough_scale": 8, "search_factor": 4,
         "ties": ["conn binary: real Connection::listen on a scripted transport/client/adapters in a paused runtime vs Conn.Sem1.run1 (sends, calls, outcome, virtual ms)",
@@ -243,11 +249,12 @@ PROPS = {
     },
     "C07": {
         "props_file": "Props/C07.v",
-        "run_files": ["Run/CaseConn.v"],
+        "run_files": ["Run/CaseConn.v", "Run/CaseConn3.v"],
         "imports": ["Lib.Bytes", "Codec.Desc", "Conn.Types", "Conn.Prog", "Conn.Sem1", "Run.CaseConn"],
         "case_type": "conn_case",
+        "family_types": {"WCAP": WCAP_FT},
         "checkers": {"BASE": "check_c07", "C07": "check_c07", "C03": "check_c07", "C10": "check_c07"},
-        "harness": [{"bin": "conn", "env": {"VERIF_FAMILIES": "BASE,C07,C03,C10"}}],
+        "harness": [{"bin": "conn", "env": {"VERIF_FAMILIES": "BASE,C07,C03,C10,WCAP"}}],
         "shard": 40,
         "quick_scale": 1, "thorough_scale": 8, "search_factor": 4,
         "ties": ["conn binary: real Connection::listen on a scripted transport/client/adapters in a paused runtime vs Conn.Sem1.run1 (sends, calls, outcome, virtual ms)",
@@ -308,11 +315,11 @@ PROPS = {
     },
     "C08": {
         "props_file": "Props/C08.v",
-        "run_files": ["Run/CaseConn.v", "Run/CaseLst.v"],
+        "run_files": ["Run/CaseConn.v", "Run/CaseConn3.v", "Run/CaseLst.v"],
         "imports": ["Lib.Bytes", "Codec.Desc", "Conn.Types", "Conn.Prog", "Conn.Sem1", "Run.CaseConn"],
         "case_type": "conn_case",
         "checkers": {"BASE": "check_c08c", "SEG": "check_c08c", "MAL": "check_c08c", "CAN": "check_c08c", "WCAN": "check_c08c"},
-        "harness": [{"bin": "conn", "env": {"VERIF_FAMILIES": "BASE,SEG,MAL,CAN,WCAN"}},
+        "harness": [{"bin": "conn", "env": {"VERIF_FAMILIES": "BASE,SEG,MAL,CAN,WCAN,WCAP"}},
                     # segmentation at the listener: the PROXY header and the first bytes of the session in one segment or in two
                     {"bin": "listener", "crate": "harness-app", "families": ["ADM"], "env": {"VERIF_FAMILY": "ADM"}, "case_type": "lstcase", "imports": ["Lib.Bytes", "Limiter.Limiter", "Listener.Machine", "Listener.Wire", "Run.CaseLst"], "checkers": {"ADM": "check_c15"}, "shard": 20}],
         "shard": 40,
@@ -320,7 +327,7 @@ PROPS = {
         "ties": ["conn binary: real Connection::listen on a scripted transport/client/adapters in a paused runtime vs the byte-level model Conn.Sem2.run2 on the delivered timed segments (sends, calls, outcome, virtual ms), with no class exempted",
                  "Conn.Sem2.run2 vs Conn.Sem1.run1 o Reader.frames_of on every case (equal on every schedule: C08_refines), and the implementation's untimed observation vs M1 o reader on every case (the property itself)",
                  "Gen/PacketsGen.v descriptors decode the client's frames and encode the model's packets"],
-        "family_types": {"SEGP": {"case_type": "seg_pair", "imports": ["Lib.Bytes", "Conn.Types", "Run.CaseConn"], "checkers": {"SEGP": "check_seg_pair"}}},
+        "family_types": {"WCAP": WCAP_FT, "SEGP": {"case_type": "seg_pair", "imports": ["Lib.Bytes", "Conn.Types", "Run.CaseConn"], "checkers": {"SEGP": "check_seg_pair"}}},
         "allowed_axioms": [],
         "rule": 'conn binary family SEG: each scenario run whole and again with every client frame cut (one byte at a time, after the length prefix, before the last byte, at seeded offsets, 3 cuts) with 3 ms gaps and, in a third of the cases, a transport that accepts 1 or 7 bytes per write; the pair is compared on packets sent, services consulted and outcome (SEGP); family CAN: logins in which a keep-alive tick or the completion of a raced adapter call is placed inside the length prefix / the body of a client frame, or the stream ends inside a frame (9 variants, seeded offsets: the schedules of the repaired classes K1 / K4); every run is compared with the byte-level model M2 exactly, with M1 applied to the byte-level reader, and judged by the segmentation-independence monitor; non-trivial = distinct segmented case; family WCAN: the transport accepts 3 bytes of the Keep Alive written at the first tick and refuses the rest for 2 ms while the raced adapter call completes 1 ms after the tick (class K3, repaired in 8ccd88e), with controls; monitor: every frame the client received is a complete canonical packet of its phase',
         "trusted_base": COMMON_TB + ["Conn/Prog.v: hand transcription of Connection::listen into the program datatype (tied by the conn correspondence: every case compares the model's sends, adapter calls, outcome and virtual times with the real Connection::listen)",
